@@ -307,7 +307,9 @@ impl SchemaCatalog {
         let content = serde_json::to_string_pretty(self)
             .map_err(|e| SchemaError::IoError(format!("Failed to serialize schemas: {e}")))?;
 
-        fs::write(path, content)
+        // Not `fs::write`: a crash while the file is rewritten in place would leave it
+        // empty or torn, and an unreadable schema file is treated as "no schemas".
+        crate::storage::metadata::write_file_atomic(path, content.as_bytes())
             .map_err(|e| SchemaError::IoError(format!("Failed to write schema catalog: {e}")))?;
 
         Ok(())
